@@ -387,7 +387,7 @@ func (w *world) configYAML(routes string) string {
 func civil(t time.Time) string {
 	// month length by Go's own date normalisation, evaluated in UTC (pure calendar)
 	dim := time.Date(t.Year(), t.Month()+1, 0, 12, 0, 0, 0, time.UTC).Day()
-	// diagnostic only: the same expression evaluated in t's location, as the pinned daysInMonth does (F9)
+	// diagnostic only: the same expression evaluated in t's location, as the pinned daysInMonth does (F12)
 	dimLoc := time.Date(t.Year(), t.Month()+1, 0, 12, 0, 0, 0, t.Location()).Day()
 	_, off := t.Zone()
 	return fmt.Sprintf("%d:%d:%d:%d:%d:%d:%d:%d:%d", off, t.Year(), int(t.Month()), t.Day(), int(t.Weekday()), t.Hour(), t.Minute(), dim, dimLoc)
